@@ -351,7 +351,7 @@ func (a *Allocator) realloc(req *Request, nodes NodeMask, types TypeMask) (zone 
 	}()
 
 	newNodes, newTypes := a.expand(req.zone|nodes, types)
-	if newNodes == 0 {
+	if newNodes == 0 && nodes&^req.zone == 0 {
 		return 0, nil, fmt.Errorf("%w: failed to reallocate, can't find new %s nodes",
 			ErrNoMem, types)
 	}
